@@ -94,7 +94,20 @@ PARTIAL = [
     _L(_L(_leaf("A", 1.5), _leaf("B", 2.5), l=0.5), _L(_leaf("D", 0.5), _leaf("E", 1.0), l=2.0)),                       # no C
     _L(_L(_leaf("C", 3.0), _leaf("D", 1.0), l=0.125), _L(_leaf("A", 1.0), _leaf("E", 2.0), l=0.375)),                   # no B
 ]
-POOLS = {"plain": PLAIN, "ultra": ULTRA, "partial": PARTIAL}
+# tip-dated pool (rooted only): the trees of the ultrametric pool with non-contemporaneous tips -- every leaf edge is
+# shortened by the age of its tip, so every internal node keeps the age it has in the ultrametric pool
+TIP_AGES = {"D": 0.25, "E": 0.5}
+
+
+def _tipdate(sp):
+    t, l, ch = sp
+    if not ch:
+        return [t, l - TIP_AGES.get(t, 0.0), []]
+    return [t, l, [_tipdate(c) for c in ch]]
+
+
+TIPDATED = [_tipdate(sp) for sp in ULTRA]
+POOLS = {"plain": PLAIN, "ultra": ULTRA, "partial": PARTIAL, "tipdated": TIPDATED}
 WEIGHTS = {"none": [None] * 5, "mixed": [None, 2, 0.5, 1, 2]}
 
 
@@ -125,7 +138,17 @@ class Pool(object):
             self.Ls.append(Q.leaf_labels(t))
             self.split_sets.append(Q.tree_splits(t, self.r, self.L))
             self.edge_vals.append(Q.split_edge_values(t, self.r, self.L))
-            self.ages.append(Q.split_node_ages(t, self.r, self.L) if case["pool"] == "ultra" else None)
+            if case["pool"] == "ultra":
+                self.ages.append(Q.split_node_ages(t, self.r, self.L))
+            elif case["pool"] == "tipdated":
+                # the ages of the ultrametric original, the tips at their own ages
+                ages = Q.split_node_ages(K.build(ULTRA[len(self.ages)], self.ns, rooted=self.rooted), self.r, self.L)
+                for nd in S.pre(t._seed_node):
+                    if not nd._child_nodes:
+                        ages[Q.node_split(nd, self.L, self.r)] = TIP_AGES.get(nd.taxon.label, 0.0)
+                self.ages.append(ages)
+            else:
+                self.ages.append(None)
         self.use_w = self.settings.get("use_tree_weights", True)
 
     def tree(self, i):
@@ -434,6 +457,7 @@ def _history(case):
     fails = []
     master = P.new_array(explicit=(case["master"] == "explicit"))
     order = []
+    subs = []   # the sub-collections merged so far: a merge reads its operand, it does not take it over
     audit(P, master, order, fails, "new")
     if fails:
         return [(m, d, _hist_key(dict(case, ops=[])), dict(case, ops=[])) for m, d in fails]
@@ -475,6 +499,7 @@ def _history(case):
                     order = ent + order
                 else:
                     raise ValueError(name)
+                subs.append((sub, ent))
         except Timeout:
             raise
         except Exception as ex:
@@ -489,6 +514,30 @@ def _history(case):
             # per-tree queries are only run after the last operation (lists, counts, frequencies
             # and value collections are still audited after every step)
             audit(P, master, order, fails, name, light=bool(case.get("final_only")) and j < len(case["ops"]) - 1)
+        if not fails:
+            # every operand of an earlier merge is still the collection it was (so it can be merged again, elsewhere)
+            for sub, ent in subs:
+                if sub is not master:
+                    audit(P, sub, ent, fails, "operand-after-" + name, light=True)
+        if not fails and j == len(case["ops"]) - 1 and len(subs) >= 2:
+            # ... and the same operands arriving at a second collection in the opposite order give the same sample
+            second = P.new_array(explicit=(case["master"] == "explicit"))
+            o2 = []
+            try:
+                for sub, ent in reversed(subs):
+                    if sub is master:
+                        continue
+                    second.update(sub)
+                    o2.extend(ent)
+                audit(P, second, o2, fails, "reuse.update", light=True)
+            except Timeout:
+                raise
+            except Exception as ex:
+                lib, where = _lib_error(ex)
+                if not lib:
+                    raise
+                if not any(len(e) == 0 for _, e in subs):   # refusals around empty operands are reported by the merge monitors
+                    fails.append(("reuse.update.raises", "%s: %s (at %s)" % (type(ex).__name__, str(ex)[:200], where)))
         if fails:
             sub_case = dict(case, ops=case["ops"][: j + 1])
             k = _hist_key(case, j)
@@ -523,6 +572,49 @@ class _FakeQueue(object):
         return self.items.pop(0)
 
 
+class _WouldBlock(Exception):
+    pass
+
+
+class _WorkQueue(object):
+    """one worker's view of the shared work queue, to the documented contract of multiprocessing.Queue: get() blocks
+    until an item arrives, items of one producer arrive in the order put; get_nowait()/empty() may report the queue
+    empty while items put on it are still in transit (`lag`: the first poll of every worker does)."""
+
+    def __init__(self, mine, sentinels, lag):
+        self.items = list(mine)
+        self.sentinels = sentinels   # end-of-work markers the parent put after the files (one is left for this worker)
+        self.lag = lag
+
+    def get(self, block=True, timeout=None):
+        if not block:
+            return self.get_nowait()
+        if self.items:
+            return self.items.pop(0)
+        if self.sentinels:
+            self.sentinels = 0
+            return None
+        raise _WouldBlock("the worker waits on the work queue for ever: every file is taken and no end-of-work marker was put")
+
+    def get_nowait(self):
+        import queue
+        if self.lag:
+            self.lag = False
+            raise queue.Empty()
+        if not self.items:
+            if self.sentinels:
+                self.sentinels = 0
+                return None
+            raise queue.Empty()
+        return self.items.pop(0)
+
+    def empty(self):
+        if self.lag:
+            self.lag = False
+            return True
+        return not self.items and not self.sentinels
+
+
 class _FakeLock(object):
     def acquire(self):
         pass
@@ -555,8 +647,8 @@ class _FakeMP(object):
 
 
 class _Sched(object):
-    def __init__(self, assign, arrival, paths):
-        self.assign, self.arrival, self.paths = assign, arrival, paths
+    def __init__(self, assign, arrival, paths, lag=False):
+        self.assign, self.arrival, self.paths, self.lag = assign, arrival, paths, lag
         self.workers = []
         self.order_of_files = []
 
@@ -565,7 +657,12 @@ class _Sched(object):
             worker = self.workers[w]
             mine = [self.paths[f] for f in range(len(self.paths)) if self.assign[f] == w]
             self.order_of_files.extend(f for f in range(len(self.paths)) if self.assign[f] == w)
-            worker.work_queue = _FakeQueue(mine)
+            put = self.work_queue.items
+            if sorted(x for x in put if x is not None) != sorted(self.paths) or any(x is None for x in put[:len(self.paths)]):
+                raise _WouldBlock("the work queue does not hold exactly the input files followed by end-of-work markers: %r" % (put,))
+            nsent = sum(1 for x in put if x is None)
+            # (fewer markers than workers: some worker finds none; the scheduler lets it be the one that arrives last)
+            worker.work_queue = _WorkQueue(mine, 1 if nsent > self.arrival.index(w) else 0, self.lag)
             worker.run()  # the real TreeAnalysisWorker.run, in this process
 
 
@@ -584,12 +681,14 @@ def _sumtrees_sched(case):
             with open(p, "w") as f:
                 f.write(P.newick(idxs, annotated=annotated))
             paths.append(p)
-        kw = dict(is_source_trees_rooted=force, ignore_edge_lengths=False, ignore_node_ages=True, use_tree_weights=True,
-                  ultrametricity_precision=constants.DEFAULT_ULTRAMETRICITY_PRECISION, taxon_label_age_map=None,
+        st = case.get("settings") or {}
+        kw = dict(is_source_trees_rooted=force, ignore_edge_lengths=False, ignore_node_ages=st.get("ignore_node_ages", True), use_tree_weights=True,
+                  ultrametricity_precision=constants.DEFAULT_ULTRAMETRICITY_PRECISION,
+                  taxon_label_age_map=(dict(st["taxon_label_age_map"]) if st.get("taxon_label_age_map") else None),
                   log_frequency=case.get("log_frequency", 0), messenger=None, debug_mode=True)
         nproc = case["nproc"]
         burn = case.get("tree_offset", 0)   # burn-in: the first `burn` trees of EVERY file are skipped
-        sched = _Sched(case["assign"], case["arrival"], paths)
+        sched = _Sched(case["assign"], case["arrival"], paths, lag=bool(case.get("lag")))
         saved = (sumtrees.multiprocessing, sumtrees.TreeAnalysisWorker.start, getattr(sumtrees.TreeAnalysisWorker, "terminate"))
         sumtrees.multiprocessing = _FakeMP(sched)
         sumtrees.TreeAnalysisWorker.start = lambda self: sched.workers.append(self)
@@ -602,6 +701,8 @@ def _sumtrees_sched(case):
                 master = tp.parallel_analyze_trees(tree_sources=paths, schema="newick", taxon_namespace=ns, tree_offset=burn)
             except Timeout:
                 raise
+            except _WouldBlock as ex:
+                fails.append(("sumtrees.collation.work-queue-protocol", str(ex)))
             except Exception as ex:
                 lib, where = _lib_error(ex)
                 if not lib:
@@ -732,9 +833,10 @@ def run_case(case):
 
 def _sched_key(case):
     rt = {True: "R", False: "U", None: "N"}[case["rooted"]]
-    return "sumtrees-sched|%s|annotated=%s|force=%s|files=%s|nproc=%d|assign=%s|arrival=%s|log=%s" % (
-        rt, case.get("annotated", True), case.get("force"), "/".join(",".join("T%d" % i for i in f) for f in case["files"]),
-        case["nproc"], "".join(str(x) for x in case["assign"]), "".join(str(x) for x in case["arrival"]), "%s,burn=%s" % (case.get("log_frequency", 0), case.get("tree_offset", 0)))
+    return "sumtrees-sched|%s|pool=%s|annotated=%s|force=%s|files=%s|nproc=%d|assign=%s|arrival=%s|log=%s" % (
+        rt, case.get("pool", "plain"), case.get("annotated", True), case.get("force"), "/".join(",".join("T%d" % i for i in f) for f in case["files"]),
+        case["nproc"], "".join(str(x) for x in case["assign"]), "".join(str(x) for x in case["arrival"]),
+        "%s,burn=%s%s" % (case.get("log_frequency", 0), case.get("tree_offset", 0), ",lag" if case.get("lag") else ""))
 
 
 def _cli_key(case):
@@ -893,7 +995,20 @@ def gen_sched(quick, rng, scope):
                 yield dict(scope=scope, nontrivial=True,
                            case=dict(what="sumtrees-sched", rooted=rt if force is None else force, pool="plain", weights="none", settings={},
                                      files=files, annotated=annotated, force=force, nproc=nproc, assign=list(a), arrival=list(p),
-                                     log_frequency=(i % 2), tree_offset=(1 if i % 3 == 2 else 0)))
+                                     log_frequency=(i % 2), tree_offset=(1 if i % 3 == 2 else 0), lag=(i % 4 == 1)))
+    # node ages collected: contemporaneous tips (ultrametric pool) and tip-dated trees with a tip-age map (sumtrees --tip-ages)
+    for pool, st in (("ultra", {"ignore_node_ages": False}), ("tipdated", {"ignore_node_ages": False, "taxon_label_age_map": TIP_AGES})):
+        for nproc in (2, 3):
+            assigns = list(itertools.product(range(nproc), repeat=3))
+            arrivals = list(itertools.permutations(range(nproc)))
+            combos = [(a, p) for a in assigns for p in arrivals]
+            if quick:
+                combos = [combos[rng.randrange(len(combos))] for _ in range(12)]
+            for i, (a, p) in enumerate(combos):
+                yield dict(scope=scope, nontrivial=True,
+                           case=dict(what="sumtrees-sched", rooted=True, pool=pool, weights="none", settings=dict(st),
+                                     files=files, annotated=True, force=None, nproc=nproc, assign=list(a), arrival=list(p),
+                                     log_frequency=0, tree_offset=0, lag=(i % 4 == 1)))
 
 
 def gen_cli(scope):
